@@ -22,6 +22,8 @@ inductive Expr where
   | num (q : Rat)
   | var (x : Name)
   | add (a b : Expr) | sub (a b : Expr) | mul (a b : Expr) | neg (a : Expr)
+  /-- division; undefined (`none`) where the divisor is zero - the implementation produces inf / nan there -/
+  | div (a b : Expr)
   | min (a b : Expr) | max (a b : Expr)
   | le (a b : Expr) | lt (a b : Expr) | eq (a b : Expr)
   | and (a b : Expr) | or (a b : Expr) | not (a : Expr)
@@ -39,6 +41,9 @@ def Expr.eval (env : Env) : Expr → Option Val
   | .sub a b => do let x ← a.eval env; let y ← b.eval env; pure (.num (x.toRat - y.toRat))
   | .mul a b => do let x ← a.eval env; let y ← b.eval env; pure (.num (x.toRat * y.toRat))
   | .neg a => do let x ← a.eval env; pure (.num (- x.toRat))
+  | .div a b => do
+      let x ← a.eval env; let y ← b.eval env
+      if y.toRat = 0 then none else pure (.num (x.toRat / y.toRat))
   | .min a b => do let x ← a.eval env; let y ← b.eval env; pure (.num (if x.toRat ≤ y.toRat then x.toRat else y.toRat))
   | .max a b => do let x ← a.eval env; let y ← b.eval env; pure (.num (if x.toRat ≤ y.toRat then y.toRat else x.toRat))
   | .le a b => do let x ← a.eval env; let y ← b.eval env; pure (.bool (x.toRat ≤ y.toRat))
